@@ -28,6 +28,23 @@ def gen_case(r):
         rl = G.rule_for(r, d, mode="typed", cast_p=45, cond_depth=2, max_len=4)
         if rl.cast and r.coin(15):
             rl = rl.replace(path=rl.path.replace(parts=[]))  # cast declared on the empty path
+        if r.pct() < 12:
+            # a comparison against a data-path argument whose modifiers may not apply to what the path finds in this
+            # document (length of a number, map keys of a list, `single` with several matches, a missing node)
+            from . import c17
+            from ..terms import PathT, Leaf, Op
+
+            def any_mods(t):
+                if isinstance(t, Op):
+                    return Op(t.op, any_mods(t.l), any_mods(t.r))
+                if isinstance(t, Leaf):
+                    fix = lambda a: (a.replace(datum=r.choice([None, "length", "dtype", "map_keys", "map_values"]),
+                                               multi=(None if model.is_concrete(a.parts) else r.choice([None, "first", "last", "single", "all"])))
+                                     if isinstance(a, PathT) and r.coin(70) else a)
+                    return t.replace(args=tuple(fix(a) for a in t.args), kwargs={k: fix(v) for k, v in t.kwargs.items()})
+                return t
+
+            rl = rl.replace(cond=any_mods(c17.gen_leaf_with_paths(r, d)), cast=None)
         rules.append(rl)
     return d, SchemaT(rules), r.coin()
 
@@ -35,6 +52,8 @@ def gen_case(r):
 def classify(schema, doc):
     undefined = uncastable = False
     for rl in schema.rules:
+        if model.has_path_args(rl.cond):
+            continue
         sel = model.ref_select(rl.path.parts, doc) if rl.path.parts else [(doc, ())]
         for v, _ in sel:
             if model.tree_undefined(rl.cond, None, v):
@@ -54,6 +73,9 @@ def body(case):
         out.label("undefined-comparison-met")
     if uncastable:
         out.label("uncastable-string-met")
+    if any(model.has_path_args(rl.cond) for rl in schema.rules):
+        out.label("path-argument-rule")
+        out.nontrivial = True
     for rl in schema.rules:
         out.label(f"cast:{rl.cast}")
         for l in leaves(rl.cond):
